@@ -70,61 +70,98 @@ def run(ctx):  # noqa: C901, PLR0912, PLR0915
         if not loops:
             raise AnalysisError(f'C20: no `for handle in requested_handles` loop in {q}')
         n_loops += len(loops)
-        # accumulators
+        # ---- R1: what is collected per handle is de-duplicated before it reaches the response
+        # accumulators: names filled inside a per-handle loop - a list (append / extend) or a keyed collection
+        # (d[k] = v, d.update((k, v) for ..), d.setdefault(k, v))
         accs = {}
-        for lp in loops:
-            for n in ast.walk(lp):
-                if isinstance(n, ast.Call) and isinstance(n.func, ast.Attribute) and n.func.attr in ('append', 'extend') \
-                        and isinstance(n.func.value, ast.Name):
-                    accs.setdefault(n.func.value.id, 'list')
-                if isinstance(n, ast.Assign) and isinstance(n.targets[0], ast.Subscript) and \
-                        isinstance(n.targets[0].value, ast.Name):
-                    key = n.targets[0].slice
-                    accs[n.targets[0].value.id] = f'dict keyed by {unparse(key)}'
-        accs = {k: v for k, v in accs.items() if k not in ('tmp',)}
+        fills = {}   # accumulator -> CFG nodes that fill it inside a handle loop
+        for n in g.real_nodes():
+            if not any(lp in n.loops for lp in loops):
+                continue
+            for c in n.calls():
+                if isinstance(c.func, ast.Attribute) and isinstance(c.func.value, ast.Name):
+                    nm, meth = c.func.value.id, c.func.attr
+                    if meth in ('append', 'extend'):
+                        accs.setdefault(nm, 'list')
+                        fills.setdefault(nm, []).append(n)
+                    elif meth == 'update' and c.args and isinstance(c.args[0], (ast.GeneratorExp, ast.ListComp)) and \
+                            isinstance(c.args[0].elt, ast.Tuple) and len(c.args[0].elt.elts) == 2:
+                        accs[nm] = f'dict keyed by {unparse(c.args[0].elt.elts[0])}'
+                        fills.setdefault(nm, []).append(n)
+                    elif meth == 'setdefault' and c.args:
+                        accs[nm] = f'dict keyed by {unparse(c.args[0])}'
+                        fills.setdefault(nm, []).append(n)
+            if n.kind == 'stmt' and isinstance(n.stmt, ast.Assign) and isinstance(n.stmt.targets[0], ast.Subscript) and \
+                    isinstance(n.stmt.targets[0].value, ast.Name):
+                nm = n.stmt.targets[0].value.id
+                accs[nm] = f'dict keyed by {unparse(n.stmt.targets[0].slice)}'
+                fills.setdefault(nm, []).append(n)
         if not accs:
             raise AnalysisError(f'C20.R1: no accumulator found in {q}')
         ext = [(n, c) for n, c in g.nodes_calling('extend') if 'response.' in unparse(c.func)]
+
+        def _dedups(v):
+            return any(isinstance(x, (ast.DictComp, ast.SetComp, ast.Dict)) or
+                       (isinstance(x, ast.Call) and call_name(x) in ('set', 'fromkeys', 'OrderedDict'))
+                       for x in ast.walk(v))
+
+        def _dirty_at(name, at, depth=3):
+            """Can a value built from a per-handle LIST accumulator reach `name` at node `at` without a de-duplication?
+            -> list of reasons (empty: clean)."""
+            why = []
+            rd = g.reaching_defs(name).get(at.id, set())
+            clean_defs = [d for d in rd if d.kind == 'stmt' and isinstance(d.stmt, ast.Assign) and _dedups(d.stmt.value)]
+            if accs.get(name) == 'list':
+                for m in fills.get(name, []):
+                    if g.path_exists(m, at, avoid=clean_defs):
+                        why.append(f'{name} filled at line {m.lineno} reaches line {at.lineno} without de-duplication')
+            for d in rd:
+                if d in clean_defs or d.kind != 'stmt' or not isinstance(d.stmt, ast.Assign) or depth <= 0:
+                    continue
+                for x in ast.walk(d.stmt.value):
+                    if isinstance(x, ast.Name) and x.id != name and x.id in accs:
+                        why += _dirty_at(x.id, d, depth - 1)
+            return why
         for name, kind in accs.items():
             if kind.startswith('dict'):
                 ok = kind.endswith('.Handle')
-                ctx.ob('C20.R1', f'{fi.name}: {name}', ok,
+                ctx.ob('C20.R1', f'{fi.name}: keyed collection', ok,
                        f'{fi.name}: selected states are collected in a {kind} (each state once)', fi=fi)
-                continue
-            # list: must be re-bound to a de-duplicated collection on every path from the loops to the response
-            dedup_nodes = []
-            for n in g.real_nodes():
-                if n.kind == 'stmt' and isinstance(n.stmt, ast.Assign) and unparse(n.stmt.targets[0]) == name:
-                    v = n.stmt.value
-                    has = any(isinstance(x, (ast.DictComp, ast.SetComp, ast.Dict)) or
-                              (isinstance(x, ast.Call) and call_name(x) in ('set', 'fromkeys', 'OrderedDict'))
-                              for x in ast.walk(v))
-                    if has and name in {y.id for y in ast.walk(v) if isinstance(y, ast.Name)}:
-                        dedup_nodes.append(n)
-            loop_nodes = [n for n in g.nodes if n.kind == 'for' and n.stmt in loops]
-            ok = bool(dedup_nodes) and bool(ext)
-            for ln in loop_nodes:
-                for e, _c in ext:
-                    if g.path_exists(ln, e, avoid=dedup_nodes):
-                        ok = False
-            ctx.ob('C20.R1', f'{fi.name}: {name}', ok,
+        dirty = []
+        for e, c in ext:
+            for x in ast.walk(c):
+                if isinstance(x, ast.Name) and isinstance(x.ctx, ast.Load):
+                    dirty += _dirty_at(x.id, e)
+        if any(k == 'list' for k in accs.values()) or dirty:
+            ok = bool(ext) and not dirty
+            ctx.ob('C20.R1', f'{fi.name}: list de-duplicated', ok,
                    f'{fi.name}: the list of selected states is de-duplicated before it is put into the response' if ok else
-                   f'{fi.name}: states are appended to the plain list "{name}" per requested handle and reach the '
-                   f'response unfiltered: a handle requested twice, or a descriptor handle together with one of its '
-                   f'context state handles, returns a state more than once', fi=fi,
-                   witness={'dedup_lines': [n.lineno for n in dedup_nodes]})
-        # R2 / R3: lookups inside the loops
+                   f'{fi.name}: states are collected per requested handle in a plain list and reach the response unfiltered: a '
+                   f'handle requested twice, or a descriptor handle together with one of its context state handles, returns '
+                   f'a state more than once', fi=fi, witness=dirty[:4])
+        # ---- R2 / R3: lookups inside the loops.  A lookup is a get_one / get whose receiver resolves (through aliases and
+        # locals chosen by an if/else: cfg.value_cases) to <mdib>.<table>.<index>
+        def _lookup_name(c):
+            hn = g.holder(c)
+            if hn is None or not isinstance(c.func, ast.Attribute):
+                return None
+            texts = [unparse(c.func.value)] + [unparse(leaf) for _f, leaf in g.value_cases(hn, c.func.value)]
+            for t in texts:
+                if '_mdib.' in t and not t.startswith('None'):
+                    return t.split('_mdib.')[1] + '.' + c.func.attr
+            return None
         for lp in loops:
             hv = lp.target.id
             lookups = []
             for n in ast.walk(lp):
-                if isinstance(n, ast.Call) and call_name(n) in ('get_one', 'get') and '_mdib.' in unparse(n.func):
+                if isinstance(n, ast.Call) and call_name(n) in ('get_one', 'get') and _lookup_name(n):
                     lookups.append(n)
-            order = [unparse(c.func).split('_mdib.')[1] for c in sorted(lookups, key=lambda c: (c.lineno, c.col_offset))]
+            lookups.sort(key=lambda c: (c.lineno, c.col_offset))
+            order = [_lookup_name(c) for c in lookups]
             for c in lookups:
-                dep = any(hv in {x.id for x in ast.walk(a) if isinstance(x, ast.Name)} for a in c.args)
-                ctx.ob('C20.R3', f'{fi.name}: {unparse(c.func).split("_mdib.")[1]}', dep,
-                       f'{fi.name}: lookup {unparse(c.func).split("_mdib.")[1]}({hv}) uses the requested handle' if dep else
+                dep = any(depends_on(a, assigns, hv) for a in c.args)
+                ctx.ob('C20.R3', f'{fi.name}: {_lookup_name(c)}', dep,
+                       f'{fi.name}: lookup {_lookup_name(c)}({hv}) uses the requested handle' if dep else
                        f'{fi.name}: lookup {unparse(c)[:70]} inside the per-handle loop does not use the handle', fi=fi, node=c)
             # every other value that is added to the result inside the loop must depend on the handle
             la = local_assignments(lp)
@@ -142,21 +179,25 @@ def run(ctx):  # noqa: C901, PLR0912, PLR0915
                         'descriptions.handle.get_one']
                 ok = order == want
                 # the later lookups happen only if the earlier one found nothing
-                gnodes = {c: next((n for n in g.real_nodes() if any(a is c for a in n.walk())), None) for c in lookups}
+                gnodes = {c: g.holder(c) for c in lookups}
                 prev_target = None
-                for c in sorted(lookups, key=lambda c: (c.lineno, c.col_offset)):
+                for c in lookups:
                     n = gnodes.get(c)
                     if n is None:
                         ok = False
                         continue
                     # a later alternative is tried only when the result of the previous one (whatever it is called) is empty
                     if prev_target is not None:
-                        ok = ok and (prev_target, False) in g.facts_at(n)
+                        ok = ok and any((t, False) in g.facts_at(n) for t in prev_target)
                     if n.kind == 'stmt' and isinstance(n.stmt, ast.Assign) and isinstance(n.stmt.targets[0], ast.Name):
                         tname = n.stmt.targets[0].id
                         # descriptions lookup feeds the MDS test, the accumulated result keeps its name
-                        if 'context_states' in unparse(c.func):
-                            prev_target = tname
+                        if 'context_states' in _lookup_name(c):
+                            # the emptiness of this alternative may be tested on the local itself or on a local derived from
+                            # it (`x = get_one(..); if x: y = [x] else: y = <next alternative>` tests x, later y)
+                            prev_target = [tname] + [k for k, vals in assigns.items()
+                                                     if any(tname in {z.id for z in ast.walk(v) if isinstance(z, ast.Name)}
+                                                            for v in vals)]
                 ctx.ob('C20.R2', f'{fi.name}: resolution order', ok,
                        'GetContextStates resolves a handle as context state, else as descriptor, else as MDS' if ok else
                        f'GetContextStates resolves handles in the order {order}', fi=fi, witness=order)
@@ -166,7 +207,7 @@ def run(ctx):  # noqa: C901, PLR0912, PLR0915
                        fi=fi)
             else:
                 # context-state lookup first (inside try), descriptor lookups in its except handler
-                first = [c for c in lookups if 'context_states.handle.get_one' in unparse(c.func)]
+                first = [c for c in lookups if _lookup_name(c) == 'context_states.handle.get_one']
                 ok = True
                 for c in first:
                     cur, child = getattr(c, '_parent', None), c
@@ -186,7 +227,7 @@ def run(ctx):  # noqa: C901, PLR0912, PLR0915
                 if first:
                     ctx.ob('C20.R2', f'{fi.name}: resolution order', ok,
                            'GetMdState tries the context-state handle first and falls back to the descriptor handle', fi=fi)
-    ctx.floor('C20.R1', n_loops, 3, 'per-handle loops')
+    ctx.floor('C20.R1', n_loops, 2, 'per-handle loops')
     # empty handle list -> all states
     for q, all_src in ((GS, 'self._mdib.states.objects'), (CS, 'self._mdib.context_states.objects')):
         fi = expand_aliases(repo.func(q))
@@ -217,7 +258,15 @@ def run(ctx):  # noqa: C901, PLR0912, PLR0915
     # decided on data dependence (engine/deps.py) and branch facts, so that loop / comprehension / accumulate-in-a-list
     # spellings of the same selection all look the same
     from engine.deps import Deps
-    dp = Deps(fl.node)
+    ls_cls = repo.cls(LS)
+
+    def _resolve(name):
+        m = repo.resolve_method(ls_cls.qual, name)
+        if m is not None:
+            return m.node
+        f = repo.funcs.get(f'{ls_cls.module.name}.{name}')
+        return f.node if f is not None else None
+    dp = Deps(fl.node, resolver=_resolve)
     gfl = cfg_of(fl)
     ret_src = set()
     for r in rets:
@@ -238,6 +287,17 @@ def run(ctx):  # noqa: C901, PLR0912, PLR0915
             and dp.depends(c.comparators[0], 'param:requested_langs')]
     refs = [x for x in ast.walk(fl.node) if isinstance(x, ast.Subscript) and unparse(x.value) == 'self._localized_texts'
             and dp.depends(x.slice, 'param:requested_handles')]
+    # ... or in a method of the storage that gets the requested handles as an argument
+    for c in [x for x in ast.walk(fl.node) if isinstance(x, ast.Call)]:
+        callee, amap = dp.callee(c)
+        if callee is None:
+            continue
+        dc_ = Deps(callee, resolver=_resolve)
+        for x in ast.walk(callee):
+            if isinstance(x, ast.Subscript) and unparse(x.value) == 'self._localized_texts':
+                for src_ in dc_.sources(x.slice):
+                    if src_.startswith('param:') and src_[6:] in amap and dp.depends(amap[src_[6:]], 'param:requested_handles'):
+                        refs.append(x)
     ok = bool(lcmp) and bool(refs) and {'cmp:In', 'self._localized_texts', 'param:requested_langs',
                                         'param:requested_handles'} <= ret_src
     ctx.ob('C20.R4', 'language and reference filters', ok, 'texts are selected by reference and filtered by language', fi=fl,
